@@ -342,6 +342,13 @@ func bfield(base ssa.Value, name string) string {
 // !(len(b) < 40), len(b)-40 >= 0 ...); for an instruction inside a new helper with a single call
 // site the caller's branches that dominate the call count as well.
 func provenLower(at ssa.Instruction, expr ssa.Value) (int64, bool) {
+	return provenLowerWith(at, expr, nil)
+}
+
+// provenLowerWith is provenLower with known values for some atoms (the parameters of a shared new
+// helper at the one call site that is being looked at): a guard D >= t+1 gives
+// expr >= t+1 + (expr - D) whenever the remainder expr - D consists of known atoms only.
+func provenLowerWith(at ssa.Instruction, expr ssa.Value, known map[string]int64) (int64, bool) {
 	e := linearB(expr, 0)
 	if !e.ok {
 		return 0, false
@@ -389,6 +396,50 @@ func provenLower(at ssa.Instruction, expr ssa.Value) (int64, bool) {
 					note(p.t + 1 + e.k)
 				case neg && !upperHere: // D <= t  =>  -D >= -t
 					note(-p.t + e.k)
+				default:
+					if len(known) == 0 {
+						continue
+					}
+					// remainder of known atoms: expr = (+-D) + R
+					sign := 1
+					if !upperHere {
+						sign = -1
+					}
+					rem := e.k
+					okRem := true
+					seenAtoms := map[string]bool{}
+					for a, n := range e.atoms {
+						seenAtoms[a] = true
+						r := n - sign*p.atoms[a]
+						if r == 0 {
+							continue
+						}
+						v, isKnown := known[a]
+						if !isKnown {
+							okRem = false
+							break
+						}
+						rem += int64(r) * v
+					}
+					for a, n := range p.atoms {
+						if seenAtoms[a] || n == 0 {
+							continue
+						}
+						v, isKnown := known[a]
+						if !isKnown {
+							okRem = false
+							break
+						}
+						rem += int64(-sign*n) * v
+					}
+					if !okRem {
+						continue
+					}
+					if upperHere {
+						note(p.t + 1 + rem)
+					} else {
+						note(-p.t + rem)
+					}
 				}
 			}
 		}
@@ -472,6 +523,9 @@ func (c *Ctx) boundaryRuleFn(key, name string, fns []*ssa.Function, match func(a
 	n := 0
 	for _, p := range partitionsIn(fns) {
 		sign := match(p.atoms)
+		if os.Getenv("DESYNCLINT_DEBUG_PART") != "" {
+			fmt.Fprintf(os.Stderr, "partition %s/%s: %s atoms=%v sign=%d\n", key, name, p, p.atoms, sign)
+		}
 		if sign == 0 {
 			continue
 		}
